@@ -99,6 +99,7 @@ def run(rep: Report) -> None:
     rep.rule("R18.3", "LogarithmicUnit stores its reference unprefixed", floor=1)
     rep.rule("R18.4", "power_ratio is 2 exactly for root-power reference dimensions and 1 otherwise", floor=2)
     rep.rule("R18.5", "declared logarithm bases are > 1 (strictly increasing level)", floor=3)
+    rep.rule("R18.11", "Level.__init__ stores the magnitude and unit it is given (no snapping, no rounding: every computed level is built through it)", floor=2)
     rep.rule("R18.10", "a copy/pickle hook on Logarithm / LogarithmicUnit passes every argument its __new__ interns under (otherwise the copy lands on "
              "another interned object, e.g. Bel for a decibel, and overwrites it)", floor=2)
     rep.rule("R18.9", "ROOT_POWER_DIMENSIONS has no entry written twice", floor=1)
@@ -256,6 +257,12 @@ def run(rep: Report) -> None:
                   f"(comparisons seen: {[ast.unparse(e.node) for e in cmps]}): both sides must be the denoted quantities, compared with "
                   "Quantity.__eq__ so that x == y exactly when y == x", leq.where())
     interning_keys(rep, prog)
+    from ..quantity_rules import check_plain_ctor
+    check_plain_ctor(rep, prog, "R18.11", "Level", {"magnitude": ["$p"], "unit": ["$p"]})
+    from .c11 import value_preservation
+    rep.rule("R11.2", "Prefix.quantify is base ** exponent (the prefix of a logarithm enters level() and quantify() through it) - shared with C11", floor=1)
+    rep.rule("R11.3", "Unit.quantify / Quantity.unprefixed / number*prefix preserve the value - shared with C11", floor=3)
+    value_preservation(rep, prog, resolver)
     from .c02 import stable_hash
     stable_hash(rep, prog, resolver, "R18.8")
     from .c15 import newargs_cover_key
